@@ -453,6 +453,25 @@ impl<F: PathFetcher> MultiPathManager<F> {
         }
     }
 
+    /// Removes the entry of the given src-dst pair if it still belongs to the exiting worker.
+    ///
+    /// A worker that was stopped earlier may exit after a successor for the same pair has been
+    /// registered; it must not remove the successor's entry.
+    pub(crate) fn stop_managing_own_paths(
+        &self,
+        src: IsdAsn,
+        dst: IsdAsn,
+        shared: &Arc<pathset::PathSetSharedState>,
+    ) {
+        if self
+            .0
+            .managed_paths
+            .remove_if_sync(&(src, dst), |(handle, _)| Arc::ptr_eq(&handle.shared, shared))
+        {
+            tracing::info!(%src, %dst, "Stopped managing paths for src-dst pair");
+        }
+    }
+
     /// Reports a path issue to the issue manager.
     pub(crate) fn report_path_issue(&self, timestamp: SystemTime, issue: IssueKind) {
         let Some(applies_to) = issue.target_type() else {
